@@ -153,7 +153,7 @@ def run_case(case: dict) -> CaseResult:
             classes.add("mixed_forms")
         if any(form(h) in ("bare", "local") and h in ol for h in hosts):
             classes.add("fallback")
-        world.fail_create = bool(ctor_fail)
+        world.fail_create = ctor_fail if ctor_fail in ("rt",) else bool(ctor_fail)
         try:
             got = await hr.async_resolve_host(list(hosts), PORT, manager)
             outcome = ("ok", flatten(got))
@@ -203,17 +203,17 @@ def run_case(case: dict) -> CaseResult:
         for i, op in enumerate(case["ops"]):
             o = op["op"]
             if o == "resolve":
-                await do_resolve(i, op["hosts"], bool(op.get("ctor_fail")))
+                await do_resolve(i, op["hosts"], op.get("ctor_fail") or False)
             elif manager is None:
                 continue
             elif o == "get" and op.get("ctor_fail") and model["inst"] is None:
                 # the library cannot open mDNS sockets (no interface / container without host networking)
                 classes.add("zeroconf_creation_fails")
-                world.fail_create = True
+                world.fail_create = op["ctor_fail"] if op["ctor_fail"] == "rt" else True
                 try:
                     manager.get_async_zeroconf()
                     viol.append(V("c20:get:returned-although-creation-failed", f"op {i}"))
-                except OSError:
+                except (OSError, RuntimeError):
                     pass
                 finally:
                     world.fail_create = False
@@ -350,11 +350,11 @@ def _case(draw, tier):
         if r <= 5 or not ops:
             ops.append({"op": "resolve", "hosts": draw(st.lists(st.sampled_from(pool), min_size=1, max_size=4))})
             if draw(st.integers(0, 5)) == 3:
-                ops[-1]["ctor_fail"] = True
+                ops[-1]["ctor_fail"] = draw(st.sampled_from([True, "rt"]))
         elif r == 6:
             ops.append({"op": "get"})
             if draw(st.integers(0, 2)) == 1:
-                ops[-1]["ctor_fail"] = True
+                ops[-1]["ctor_fail"] = draw(st.sampled_from([True, "rt"]))
         elif r == 7:
             ops.append({"op": "close"})
         elif r == 8:
@@ -375,7 +375,8 @@ def strategy(tier):
 
 def enumerated(tier):
     # the library cannot create its own instance, later the application supplies one / creation works again
-    for first in ({"op": "get", "ctor_fail": True}, {"op": "resolve", "hosts": ["kitchen.local"], "ctor_fail": True}, {"op": "resolve", "hosts": ["kitchen", "10.0.0.5", "dev.example.com"], "ctor_fail": True}):
+    for first in ({"op": "get", "ctor_fail": True}, {"op": "resolve", "hosts": ["kitchen.local"], "ctor_fail": True}, {"op": "resolve", "hosts": ["kitchen", "10.0.0.5", "dev.example.com"], "ctor_fail": True},
+                  {"op": "get", "ctor_fail": "rt"}, {"op": "resolve", "hosts": ["kitchen.local"], "ctor_fail": "rt"}, {"op": "resolve", "hosts": ["kitchen", "10.0.0.5", "dev.example.com"], "ctor_fail": "rt"}):
         for then in ([{"op": "supply", "kind": "async"}, {"op": "close"}], [{"op": "supply", "kind": "sync"}, {"op": "resolve", "hosts": ["kitchen.local"]}, {"op": "close"}],
                      [{"op": "get"}, {"op": "close"}], [{"op": "close"}, {"op": "resolve", "hosts": ["kitchen.local"]}], [{"op": "supply", "kind": "async"}, {"op": "rl", "tcp": "refuse", "pass_instance": True, "wait": 2, "address": "kitchen.local"}]):
             yield {"manager": "empty", "mdns": {"kitchen": MDNS_OUT[0]}, "dns": {"kitchen.local": DNS_OUT[0], "kitchen": DNS_OUT[3], "dev.example.com": DNS_OUT[1]}, "ops": [first] + then}
